@@ -45,7 +45,7 @@ type CPPlan struct {
 	Split       int      `json:"split,omitempty"` // functions with index >= Split (when > 0) live in a second file of the package
 }
 
-var cpSiteKinds = []string{"helper-div", "helper-attr", "local-div", "idx-slice", "idx-string", "slice-bounds", "div", "mod", "nil-set", "nil-get", "nil-method", "nil-map", "nil-func", "panic", "native", "for-cond"}
+var cpSiteKinds = []string{"helper-div", "helper-attr", "local-div", "idx-slice", "idx-string", "slice-bounds", "div", "mod", "nil-set", "nil-get", "nil-method", "nil-map", "nil-func", "panic", "native", "for-cond", "range-bad"}
 
 type cpSite struct {
 	Func int
@@ -83,6 +83,7 @@ func cpCallExpr(i int, f *CPFunc, arg string) string {
 
 const cpPrelude = `package main
 import "host"
+import "golang.org/x/exp/slices"
 type T struct { A int }
 func (t *T) get() int { return t.A }
 var arr = []int{1, 2, 3}
@@ -117,6 +118,18 @@ func selF(k int) func() int {
 		return nilF
 	}
 	return okF
+}
+func selR(k int) any {
+	if k == 1 {
+		return okT
+	}
+	if k == 2 {
+		return okF
+	}
+	return arr
+}
+func cmpLess(a int, b int) bool {
+	return a < b
 }
 `
 
@@ -209,6 +222,22 @@ func cpRender(p *CPPlan) *cpRendered {
 				stmts(fi, s.Body, ind+"\t")
 				ctx = ctx[:len(ctx)-1]
 				emit(ind + "}")
+			case "range-bad":
+				// the operand of range is not something that can be ranged over; the body spans lines
+				site(fmt.Sprintf("for _, e := range selR(host.Flag(%d) * %d) {", id, 1+id%2))
+				emit(ind + "\tr = r + e")
+				ctx += "l"
+				stmts(fi, s.Body, ind+"\t")
+				ctx = ctx[:len(ctx)-1]
+				emit(ind + "\tr = r + 1")
+				emit(ind + "}")
+			case "sort":
+				// a sort whose comparator is a function literal that calls a script function; it
+				// completes, later statements fail
+				lamSeen = true
+				emit(ind + fmt.Sprintf("sq%d := []int{3, 1, 2, %d}", s.N, s.N))
+				emit(ind + fmt.Sprintf("slices.SortFunc(sq%d, func(a, b int) bool { return cmpLess(a, b) })", s.N))
+				emit(ind + fmt.Sprintf("r = r + sq%d[0] - 1", s.N))
 			case "call", "mcall":
 				if s.Target > fi && s.Target < len(p.Funcs) {
 					emit(ind + fmt.Sprintf("host.At(%d); r = r + %s", line+1, cpCallExpr(s.Target, &p.Funcs[s.Target], "d")))
@@ -294,8 +323,8 @@ func cpRender(p *CPPlan) *cpRendered {
 			// the rest of the package lives in a second file with its own line numbers
 			lineA = line
 			b = &bB
-			b.WriteString("package main\nimport \"host\"\n")
-			line = 2
+			b.WriteString("package main\nimport \"host\"\nimport \"golang.org/x/exp/slices\"\n")
+			line = 3
 			curFile = "main/b.go"
 		}
 		r.FuncFile = append(r.FuncFile, curFile)
@@ -367,6 +396,9 @@ func (g *cpGen) siteStmt() CPStmt {
 	if k == "for-cond" {
 		s.Body = g.block(0, 1, 2)
 	}
+	if k == "range-bad" {
+		s.Body = g.block(0, 1+g.r.Intn(2), 2)
+	}
 	return s
 }
 
@@ -389,7 +421,7 @@ func (g *cpGen) stmt(fi, depth int) CPStmt {
 func (g *cpGen) stmt0(fi, depth int) CPStmt {
 	if g.r.Chance(1, 12) {
 		g.nextID++
-		return CPStmt{Kind: "lambda", N: g.nextID}
+		return CPStmt{Kind: core.Pick(g.r, []string{"lambda", "lambda", "sort"}), N: g.nextID}
 	}
 	k := g.r.Intn(20)
 	switch {
